@@ -336,7 +336,8 @@ theorem holeBind_some {s : Segment} {b : Bytes} (h : holeBind s = some b) : s.el
   · cases h
 
 theorem allBind_some {s : Segment} {b : Bytes} {c : Int} (h : allBind s = some (b, c)) :
-    s.elems = [.bind b] ∨ ∃ q qs, s.elems = [.params (q :: qs)] ∧ b = q.ident := by
+    s.elems = [.bind b] ∨
+      ∃ q qs, s.elems = [.params (q :: qs)] ∧ b = q.ident ∧ q.val = .lit starStar := by
   unfold allBind at h
   split at h
   · rename_i b'
@@ -347,9 +348,10 @@ theorem allBind_some {s : Segment} {b : Bytes} {c : Int} (h : allBind s = some (
     · cases h
   · rename_i q qs
     right
-    refine ⟨q, qs, rfl, ?_⟩
     split at h
-    · split at h
+    · rename_i hstar
+      refine ⟨q, qs, rfl, ?_, hstar⟩
+      split at h
       · split at h
         · split at h <;> (simp only [Option.some.injEq, Prod.mk.injEq] at h; exact h.1.symm)
         · simp only [Option.some.injEq, Prod.mk.injEq] at h; exact h.1.symm
@@ -380,7 +382,8 @@ theorem classifyLeaf_inv {E : Engine} {s : Segment} {p : Pat} (h : classifyLeaf 
     (∃ lit, p = .static lit ∧ s.elems = [.ident lit]) ∨
     (∃ b, p = .hole b ∧ s.elems = [.bind b]) ∨
     (∃ b cap, p = .all b cap ∧
-      (s.elems = [.bind b] ∨ ∃ q qs, s.elems = [.params (q :: qs)] ∧ b = q.ident)) := by
+      (s.elems = [.bind b] ∨
+        ∃ q qs, s.elems = [.params (q :: qs)] ∧ b = q.ident ∧ q.val = .lit starStar)) := by
   unfold classifyLeaf at h
   split at h
   · rename_i he
@@ -404,16 +407,17 @@ theorem classifyLeaf_inv {E : Engine} {s : Segment} {p : Pat} (h : classifyLeaf 
 
 theorem instSeg_ident (vals : List (Bytes × Bytes)) (lit : Bytes) (s : Segment)
     (h : s.elems = [.ident lit]) : instSeg vals s = lit := by
-  simp [instSeg, h, instElem, elemTok, Tok.subst]
+  simp [instSeg, h, C12.instElem_ident]
 
 theorem instSeg_bind (vals : List (Bytes × Bytes)) (b v : Bytes) (s : Segment)
     (h : s.elems = [.bind b]) (hv : vals.lookup b = some v) : instSeg vals s = v := by
-  simp [instSeg, h, instElem, elemTok, Tok.subst, hv]
+  simp [instSeg, h, C12.instElem_bind vals b v hv]
 
 theorem instSeg_params (vals : List (Bytes × Bytes)) (q : BindParam) (qs : List BindParam) (v : Bytes)
-    (s : Segment) (h : s.elems = [.params (q :: qs)]) (hv : vals.lookup q.ident = some v) :
+    (t : Bytes) (s : Segment) (h : s.elems = [.params (q :: qs)]) (hq : q.val = .lit t)
+    (hv : vals.lookup q.ident = some v) :
     instSeg vals s = v := by
-  simp [instSeg, h, instElem, elemTok, Tok.subst, hv]
+  simp [instSeg, h, C12.instElem_params_lit vals q qs v t hq hv]
 
 /-- filling the captured values into a segment that is a static text, a placeholder or a
     match-all gives the `/`-join of the request segments the step took -/
@@ -439,9 +443,9 @@ theorem instSeg_step {E : Engine} {vals : List (Bytes × Bytes)} {seg : Segment}
     have := hv (b, x) (by simp [Step.caps, hp, Pat.caps, hx, joinSlash])
     rw [instSeg_bind vals b x seg he this, hx]; rfl
   · have := hv (b, joinSlash st.taken) (by simp [Step.caps, hp, Pat.caps])
-    rcases he with he | ⟨q, qs, he, rfl⟩
+    rcases he with he | ⟨q, qs, he, rfl, hq⟩
     · exact instSeg_bind vals b _ seg he this
-    · exact instSeg_params vals q qs _ seg he this
+    · exact instSeg_params vals q qs _ _ seg he hq this
 
 theorem lookup_of_mem_nodup : ∀ (vals : List (Bytes × Bytes)), (vals.map (·.1)).Nodup →
     ∀ b v, (b, v) ∈ vals → vals.lookup b = some v
@@ -665,7 +669,7 @@ theorem classifyLeaf_binds_noBrace {E : Engine} {s : Segment} {p : Pat} (hP : Pa
     intro b' hb'
     simp only [Pat.binds, List.mem_singleton] at hb'
     subst hb'
-    rcases he with he | ⟨q, qs, he, rfl⟩
+    rcases he with he | ⟨q, qs, he, rfl, _⟩
     · rw [he] at hall
       simp only [List.all_cons, List.all_nil, Bool.and_true, parsedElem] at hall
       exact cleanText_noBrace hall
@@ -757,5 +761,36 @@ theorem walk_roundtrip_of {E : Engine} {hok : Nat → Bool} {subs : List Node} {
       rw [hsegs]; exact takeWhile_short _ opt hno hopt
     rw [urlPath_false, htw,
       C12.urlPath_join ⟨formSegs w.endLeaf⟩ _ (braceFree_of_parsed hsegsP) hv hformne, hjoin]
+
+/-- **the round trip for the root path**: the short form of a route whose only segment is optional
+    (`/?name` requested as `/`) — `URLPath` stops before the optional segment and, the buffer being
+    empty, returns `/`; the request has the single empty segment -/
+theorem walk_roundtrip_rootShort {E : Engine} {hok : Nat → Bool} {subs : List Node} {leaves : List Leaf}
+    {s : Seg} {rest : List Seg} (w : Walk E hok subs leaves s rest)
+    (hr : RouteInv E (fun x => ParsedSeg x = true) [] subs leaves)
+    (hk : KeyInv E (fun x => ParsedSeg x = true) subs)
+    (hl : w.endLeaf.long = false) (hlen : w.endLeaf.route.segs.length < 2) :
+    urlPath w.endLeaf.route w.binds w.endLeaf.long = slash :: joinSlash (s :: rest) := by
+  obtain ⟨inner, last, h1, h2, ⟨_, init, sl, hmap, hcl, hcase⟩, _⟩ := w.route_link [] hr hk
+  rcases hcase with ⟨hl', _⟩ | ⟨_, _, _, opt, _, e⟩ | ⟨_, hinit, hsl, opt, hopt, e⟩
+  · rw [hl] at hl'; cases hl'
+  · rw [e] at hlen; simp only [List.length_append, List.length_cons, List.length_nil] at hlen; omega
+  · subst hinit hsl
+    have hinner : inner = [] := by simpa using hmap.symm
+    subst hinner
+    have hpat : last.pat = .static [] := by
+      rw [h2]
+      simp only [classifyLeaf, List.isEmpty_nil, ↓reduceIte, Except.ok.injEq] at hcl
+      exact hcl.symm
+    have hso := w.steps_ok last (by rw [h1]; simp)
+    obtain ⟨x, hx, ha⟩ := hso.single (by rw [hpat]; rfl)
+    rw [hpat] at ha
+    simp only [Pat.acceptsLeaf, decide_eq_true_eq] at ha
+    have htk := w.steps_taken
+    rw [h1] at htk
+    simp only [List.nil_append, List.flatMap_cons, List.flatMap_nil, List.append_nil, hx] at htk
+    rw [hl, C12.urlPath_fallback_root _ opt [] e hopt, ← htk, B_slash]
+    subst ha
+    rfl
 
 end Flamego
